@@ -438,12 +438,14 @@ package engine
 
 // ---- session (C17 C18) ----
 
-//@ spec pred sessInv(s *Session) { (s.CurDB != "" ==> s.RelationService != nil) && openStores == (s.RelationService != nil ? 1 : 0) }
+// A session never has two stores open on one data file: two flush timers would write two copies of the header over each other.
+//@ spec pred sessInv(s *Session) { (s.CurDB != "" ==> s.RelationService != nil) && openStores == (s.RelationService != nil ? 1 : 0) &&
+//@        (s.RelationService != nil ==> openDB == strLower(s.CurDB)) }
 
 //@ func (s *Session) ExecQuery(q string) error
 //@   props C17 C18 C13 C14
 //@   requires txn == 0 && sessInv(s)
-//@   modifies s.CurDB, s.RelationService, txn, storeState, walFlushes, rowsApplied, entryCount, seq, openStores, @storeHeap, all(storage.Row.Vals), all(storage.Field.Column), allelems(any), allelems(*storage.Row)
+//@   modifies s.CurDB, s.RelationService, txn, storeState, walFlushes, rowsApplied, entryCount, seq, openStores, openDB, @storeHeap, all(storage.Row.Vals), all(storage.Field.Column), allelems(any), allelems(*storage.Row)
 //@   ensures[unlock; C13] txn == 0
 //@   ensures[inv; C17 C18] sessInv(s)
 //@   ensures[errorframe; C17] result != nil && openStores == old(openStores) ==> s.CurDB == old(s.CurDB) && s.RelationService == old(s.RelationService)
